@@ -185,45 +185,45 @@ Lemma entry_leb_trans a b c : entry_leb a b = true -> entry_leb b c = true -> en
 Proof. apply path_leb_trans. Qed.
 
 (* ------------------------------------------------------------------ the walk *)
-Lemma walk_perm fx tree : Permutation (walk_sorted fx tree) (filter (selected fx) tree).
+Lemma walk_perm tree : Permutation (walk_sorted tree) (filter selected tree).
 Proof. apply sort_perm. Qed.
 
-Lemma walk_sorted_sorted fx tree :
-  StronglySorted (fun a b => entry_leb a b = true) (walk_sorted fx tree).
+Lemma walk_sorted_sorted tree :
+  StronglySorted (fun a b => entry_leb a b = true) (walk_sorted tree).
 Proof. apply sort_sorted; [apply entry_leb_total | apply entry_leb_trans]. Qed.
 
 (* the order in which the file system lists the entries does not matter *)
-Lemma walk_order_independent fx tree tree' :
-  NoDup (map e_path tree) -> Permutation tree tree' -> walk_sorted fx tree = walk_sorted fx tree'.
+Lemma walk_order_independent tree tree' :
+  NoDup (map e_path tree) -> Permutation tree tree' -> walk_sorted tree = walk_sorted tree'.
 Proof.
   intros Hn Hp.
   apply (sorted_perm_eq _ entry_leb); try apply walk_sorted_sorted.
   - intros x y Hx Hy H1 H2.
-    assert (Hx' : In x (filter (selected fx) tree)) by (eapply Permutation_in; [apply walk_perm | exact Hx]).
-    assert (Hy' : In y (filter (selected fx) tree)) by (eapply Permutation_in; [apply walk_perm | exact Hy]).
+    assert (Hx' : In x (filter selected tree)) by (eapply Permutation_in; [apply walk_perm | exact Hx]).
+    assert (Hy' : In y (filter selected tree)) by (eapply Permutation_in; [apply walk_perm | exact Hy]).
     apply filter_In in Hx' as [Hx' _]. apply filter_In in Hy' as [Hy' _].
     eapply NoDup_map_inj_on; [exact Hn | exact Hx' | exact Hy' |].
     apply path_leb_antisym; assumption.
   - rewrite walk_perm. rewrite walk_perm. apply filter_perm. exact Hp.
 Qed.
 
-Lemma load_order_independent fx tree tree' :
-  NoDup (map e_path tree) -> Permutation tree tree' -> load_dir fx tree = load_dir fx tree'.
-Proof. intros Hn Hp. unfold load_dir. rewrite (walk_order_independent fx tree tree' Hn Hp). reflexivity. Qed.
+Lemma load_order_independent tree tree' :
+  NoDup (map e_path tree) -> Permutation tree tree' -> load_dir tree = load_dir tree'.
+Proof. intros Hn Hp. unfold load_dir. rewrite (walk_order_independent tree tree' Hn Hp). reflexivity. Qed.
 
-Lemma loaded_defs_order_independent fx tree tree' :
-  NoDup (map e_path tree) -> Permutation tree tree' -> loaded_defs fx tree = loaded_defs fx tree'.
-Proof. intros Hn Hp. unfold loaded_defs. rewrite (walk_order_independent fx tree tree' Hn Hp). reflexivity. Qed.
+Lemma loaded_defs_order_independent tree tree' :
+  NoDup (map e_path tree) -> Permutation tree tree' -> loaded_defs tree = loaded_defs tree'.
+Proof. intros Hn Hp. unfold loaded_defs. rewrite (walk_order_independent tree tree' Hn Hp). reflexivity. Qed.
 
 (* entries that are not selected do not matter *)
-Lemma unselected_ignored fx tree junk :
-  forallb (fun e => negb (selected fx e)) junk = true ->
-  walk_sorted fx (tree ++ junk) = walk_sorted fx tree.
+Lemma unselected_ignored tree junk :
+  forallb (fun e => negb (selected e)) junk = true ->
+  walk_sorted (tree ++ junk) = walk_sorted tree.
 Proof.
   intro H. unfold walk_sorted. rewrite filter_app.
-  replace (filter (selected fx) junk) with (@nil entry); [rewrite app_nil_r; reflexivity|].
+  replace (filter selected junk) with (@nil entry); [rewrite app_nil_r; reflexivity|].
   induction junk as [|e j IH]; simpl in *; [reflexivity|].
-  apply andb_true_iff in H as [H1 H2]. destruct (selected fx e); [discriminate|]. apply IH. exact H2.
+  apply andb_true_iff in H as [H1 H2]. destruct (selected e); [discriminate|]. apply IH. exact H2.
 Qed.
 
 (* ------------------------------------------------------------------ reading *)
@@ -266,13 +266,13 @@ Proof.
   - destruct (f x), (f y); reflexivity.
 Qed.
 
-Lemma load_ok_iff fx tree :
-  (exists t, load_dir fx tree = inr t) <-> all_readable fx tree = true.
+Lemma load_ok_iff tree :
+  (exists t, load_dir tree = inr t) <-> all_readable tree = true.
 Proof.
-  unfold load_dir, all_readable. rewrite <- (forallb_perm readable _ _ (walk_perm fx tree)). split.
-  - intros [t H]. destruct (read_all (walk_sorted fx tree)) eqn:Ra; [discriminate|].
-    destruct (forallb readable (walk_sorted fx tree)) eqn:F; [reflexivity|].
-    exfalso. clear H. revert l Ra. induction (walk_sorted fx tree) as [|e l IH]; simpl in *; [discriminate|].
+  unfold load_dir, all_readable. rewrite <- (forallb_perm readable _ _ (walk_perm tree)). split.
+  - intros [t H]. destruct (read_all (walk_sorted tree)) eqn:Ra; [discriminate|].
+    destruct (forallb readable (walk_sorted tree)) eqn:F; [reflexivity|].
+    exfalso. clear H. revert l Ra. induction (walk_sorted tree) as [|e l IH]; simpl in *; [discriminate|].
     intros ts. destruct (readable e) eqn:R.
     + rewrite (read_file_readable e R). destruct (read_all l) eqn:Rl; [discriminate|].
       intros _. simpl in F. eapply IH; [exact F | reflexivity].
@@ -280,27 +280,27 @@ Proof.
   - intro H. rewrite (read_all_ok _ H). eexists. reflexivity.
 Qed.
 
-Lemma load_ok_text fx tree :
-  all_readable fx tree = true -> load_dir fx tree = inr (join_nl (map e_text (walk_sorted fx tree))).
+Lemma load_ok_text tree :
+  all_readable tree = true -> load_dir tree = inr (join_nl (map e_text (walk_sorted tree))).
 Proof.
-  unfold load_dir, all_readable. rewrite <- (forallb_perm readable _ _ (walk_perm fx tree)).
+  unfold load_dir, all_readable. rewrite <- (forallb_perm readable _ _ (walk_perm tree)).
   intro H. rewrite (read_all_ok _ H). reflexivity.
 Qed.
 
 (* the error names the least unreadable selected path *)
-Lemma load_first_error fx tree x :
-  load_dir fx tree = inl x ->
-  exists e, In e (filter (selected fx) tree) /\ readable e = false /\ x = err_of e /\
-    forall e', In e' (filter (selected fx) tree) -> readable e' = false ->
+Lemma load_first_error tree x :
+  load_dir tree = inl x ->
+  exists e, In e (filter selected tree) /\ readable e = false /\ x = err_of e /\
+    forall e', In e' (filter selected tree) -> readable e' = false ->
                path_leb (e_path e) (e_path e') = true.
 Proof.
-  unfold load_dir. destruct (read_all (walk_sorted fx tree)) eqn:Ra; [|discriminate].
+  unfold load_dir. destruct (read_all (walk_sorted tree)) eqn:Ra; [|discriminate].
   intro H. inversion H; subst. destruct (read_all_err _ _ Ra) as [pre [e [post [E [Hp [Hu Hx]]]]]].
   exists e. split; [|split; [exact Hu | split; [exact Hx|]]].
   - eapply Permutation_in; [apply walk_perm|]. rewrite E. apply in_or_app. right. left. reflexivity.
   - intros e' Hin Hr.
-    assert (Hin' : In e' (walk_sorted fx tree)) by (eapply Permutation_in; [symmetry; apply walk_perm | exact Hin]).
-    pose proof (walk_sorted_sorted fx tree) as Hs. rewrite E in Hs, Hin'.
+    assert (Hin' : In e' (walk_sorted tree)) by (eapply Permutation_in; [symmetry; apply walk_perm | exact Hin]).
+    pose proof (walk_sorted_sorted tree) as Hs. rewrite E in Hs, Hin'.
     apply in_app_or in Hin' as [Hin'|Hin'].
     + exfalso. rewrite forallb_forall in Hp. rewrite (Hp _ Hin') in Hr. discriminate.
     + clear Hp E. induction pre as [|p pre IH]; simpl in Hs.
@@ -311,9 +311,9 @@ Proof.
 Qed.
 
 (* ------------------------------------------------------------------ definitions fed to build_ast_schema *)
-Theorem split_permutation fx tree ds :
-  Permutation (flat_map defs_of (filter (selected fx) tree)) ds ->
-  Permutation (loaded_defs fx tree) ds.
+Theorem split_permutation tree ds :
+  Permutation (flat_map defs_of (filter selected tree)) ds ->
+  Permutation (loaded_defs tree) ds.
 Proof.
   intro H. unfold loaded_defs. etransitivity; [|exact H].
   apply Permutation_flat_map. apply walk_perm.
@@ -483,54 +483,51 @@ Proof.
 Qed.
 
 (* ------------------------------------------------------------------ statements used by Properties/C19.v *)
-Theorem split_invariant fx tree ds :
+Theorem split_invariant tree ds :
   NoDup (type_names ds) -> has_ext ds = false ->
-  Permutation (flat_map defs_of (filter (selected fx) tree)) ds ->
-  Permutation (type_map (loaded_defs fx tree)) (type_map ds) /\
-  forall n, assoc_get n (type_map (loaded_defs fx tree)) = assoc_get n (type_map ds).
+  Permutation (flat_map defs_of (filter selected tree)) ds ->
+  Permutation (type_map (loaded_defs tree)) (type_map ds) /\
+  forall n, assoc_get n (type_map (loaded_defs tree)) = assoc_get n (type_map ds).
 Proof.
-  intros Hn He Hp. pose proof (split_permutation fx tree ds Hp) as H. split.
+  intros Hn He Hp. pose proof (split_permutation tree ds Hp) as H. split.
   - apply type_map_perm_noext; assumption.
   - intro n. apply type_map_lookup_eq_noext; assumption.
 Qed.
 
-Theorem split_invariant_ext fx tree ds n :
+Theorem split_invariant_ext tree ds n :
   NoDup (type_names ds) ->
-  Permutation (flat_map defs_of (filter (selected fx) tree)) ds ->
-  lookup_equiv (assoc_get n (type_map (loaded_defs fx tree))) (assoc_get n (type_map ds)).
+  Permutation (flat_map defs_of (filter selected tree)) ds ->
+  lookup_equiv (assoc_get n (type_map (loaded_defs tree))) (assoc_get n (type_map ds)).
 Proof.
   intros Hn Hp. apply type_map_lookup_equiv; [exact Hn | apply split_permutation; exact Hp].
 Qed.
 
-Theorem load_unselected_ignored fx tree junk :
-  forallb (fun e => negb (selected fx e)) junk = true ->
-  load_dir fx (tree ++ junk) = load_dir fx tree.
-Proof. intro H. unfold load_dir. rewrite (unselected_ignored fx tree junk H). reflexivity. Qed.
+Theorem load_unselected_ignored tree junk :
+  forallb (fun e => negb (selected e)) junk = true ->
+  load_dir (tree ++ junk) = load_dir tree.
+Proof. intro H. unfold load_dir. rewrite (unselected_ignored tree junk H). reflexivity. Qed.
 
-Lemma all_readable_from_files fx tree :
-  files_readable fx tree = true -> (fx = true \/ suffixed_dir tree = false) -> all_readable fx tree = true.
+Lemma all_readable_from_files tree : files_readable tree = true -> all_readable tree = true.
 Proof.
-  unfold files_readable, all_readable, suffixed_dir. intros H G.
+  unfold files_readable, all_readable. intro H.
   induction tree as [|e t IH]; simpl in *; [reflexivity|].
-  apply andb_true_iff in H as [H1 H2].
-  assert (G' : fx = true \/ existsb (fun e => e_isdir e && selected false e) t = false).
-  { destruct G as [G|G]; [left; exact G|]. apply orb_false_iff in G as [_ G]. right. exact G. }
-  specialize (IH H2 G').
-  destruct (selected fx e) eqn:S; simpl; [|exact IH]. rewrite IH, andb_true_r.
-  destruct (e_isdir e) eqn:D; simpl in *.
-  - exfalso. destruct G as [G|G].
-    + subst fx. unfold selected in S. rewrite D in S. simpl in S. discriminate.
-    + apply orb_false_iff in G as [G _]. destruct fx.
-      * unfold selected in S. rewrite D in S. simpl in S. discriminate.
-      * rewrite S in G. discriminate.
-  - exact H1.
+  apply andb_true_iff in H as [H1 H2]. specialize (IH H2).
+  destruct (selected e) eqn:S; simpl; [|exact IH]. rewrite IH, andb_true_r.
+  unfold selected in S. apply andb_true_iff in S as [D _].
+  destruct (e_isdir e); simpl in *; [discriminate | exact H1].
 Qed.
 
+(* a tree whose FILES are all fine loads (directories, whatever their names, are never opened) *)
+Theorem split_loads tree : files_readable tree = true -> exists t, load_dir tree = inr t.
+Proof. intro H. apply load_ok_iff. apply all_readable_from_files. exact H. Qed.
 
-Theorem split_loads_partial tree :
-  files_readable false tree = true -> suffixed_dir tree = false -> exists t, load_dir false tree = inr t.
-Proof. intros H G. apply load_ok_iff. apply all_readable_from_files; auto. Qed.
+Lemma selected_not_dir e : selected e = true -> e_isdir e = false.
+Proof. unfold selected. intro H. apply andb_true_iff in H as [H _]. destruct (e_isdir e); [discriminate | reflexivity]. Qed.
 
-Theorem split_loads_fixed tree :
-  files_readable true tree = true -> exists t, load_dir true tree = inr t.
-Proof. intros H. apply load_ok_iff. apply all_readable_from_files; auto. Qed.
+(* the only load error left is a syntax error in a selected file *)
+Theorem load_error_is_syntax tree x : load_dir tree = inl x -> exists p, x = ESyntax p.
+Proof.
+  intro H. destruct (load_first_error tree x H) as [e [Hin [_ [Hx _]]]].
+  apply filter_In in Hin as [_ S]. apply selected_not_dir in S.
+  unfold err_of in Hx. rewrite S in Hx. eauto.
+Qed.
